@@ -125,6 +125,7 @@ func checkC05(ctx *Ctx, r *Report) {
 	c05FifthRound(ctx, r)
 	c05SixthRound(ctx, r)
 	c18HintedBranchesVisited(ctx, r)
+	c07ObjectSetsKeyedByIdentity(ctx, r)
 	c01DefinitionIdentity(ctx, r)
 }
 
